@@ -9,6 +9,7 @@ import (
 	"fmt"
 	"math/rand"
 	"os"
+	"runtime"
 	"sort"
 	"strings"
 
@@ -50,7 +51,17 @@ func main() {
 	}
 	r := lib.NewResult(strings.ToUpper(id), *tier, *seed)
 	c := &lib.Ctx{Tier: *tier, Seed: *seed, ModelPath: *model, Replay: *replay, Rand: rand.New(rand.NewSource(*seed)), R: r}
-	f(c)
+	func() {
+		// a panic of the code under test inside the harness process is an observation, not a harness failure
+		defer func() {
+			if p := recover(); p != nil {
+				buf := make([]byte, 8192)
+				buf = buf[:runtime.Stack(buf, false)]
+				r.Fail(lib.Failure{Kind: "oracle", Key: "panic/in-process", What: fmt.Sprintf("the code under test panicked inside the harness process: %v", p), Actual: string(buf)})
+			}
+		}()
+		f(c)
+	}()
 	if err := r.Write(*out); err != nil {
 		fmt.Fprintln(os.Stderr, "vh:", err)
 		os.Exit(2)
